@@ -141,7 +141,8 @@ def all_injections(src, rng=None, per_kind=None):
                 continue
             out.append((kind, i, "\n".join(inject_stmt(lines, i, snip)) + "\n"))
         if indent_of(lines[i]) == 0:
-            out.append(("star-import", i, "\n".join(inject_stmt(lines, i, ["from math import *"])) + "\n"))
+            for star in ("from math import *", "from . import *", "from .. import *", "from .m import *", "from os.path import *"):
+                out.append(("star-import", i, "\n".join(inject_stmt(lines, i, [star])) + "\n"))
         out.append(("yield-stmt", i, "\n".join(inject_stmt(lines, i, ["yield 5"])) + "\n"))
         for kind, text in EXPR_SNIPPETS.items():
             r = inject_expr(lines, i, text, spans)
@@ -188,6 +189,9 @@ def is_dead_position(src, lineno):
 
 
 CURATED = [
+    ("lambda-kwonly-parameter-named-like-captured-variable", "def f():\n    a = 1\n    kw = 'outer'\n    def g():\n        nonlocal a, kw\n        a += 1\n        kw += '!'\n        return a, kw\n"
+     "    h = lambda *, a: a * 10\n    k = lambda x, *, a=5, **kw: (x, a, sorted(kw))\n    m = lambda *a, kw=0: (a, kw)\n    return g(), h(a=3), k(1), k(1, a=2, z=0), m(1, kw=2), a, kw\nprint(f())\n"),
+    ("class-body-below-nonlocal-rebinder", "def outer():\n    x = 'o'\n    def middle():\n        nonlocal x\n        x = x + 'm'\n        class K:\n            a = x\n            def m(self):\n                return x\n        return K.a, K().m(), x\n    return middle(), x\nprint(outer())\n"),
     ("lambda-signatures", "f = lambda a, b=2, *c, d, e=5, **k: (a, b, c, d, e, sorted(k))\ng = lambda *, name, sep: name + sep\nh = lambda *a, k: (a, k)\ni = lambda a, /, b, *, c: (a, b, c)\n"
      "print(f(1, d=4), g(name='n', sep='-'), h(1, k=2), i(1, 2, c=3), (lambda *, only: only)(only=1))\n"),
     ("aug-subscript-index-rebinds-object", "a = [1, 2]\nb = [10, 20]\ndef swap():\n    global a\n    a = b\n    return 0\na[swap()] += 5\nc = [1, 2]\nd = c\nc[(c := [7, 8])[0] - 7] += 1\nprint(a, b, c, d)\n"),
